@@ -317,7 +317,7 @@ def m3(ctx):
                      and e.d['recv'].a[0] == f.qual]
             gets = [e for e in tr if e.kind == 'CALL' and e.d['name'] == 'get']
             sets = [e for e in tr if e.kind == 'CALL' and e.d['name'] == 'set' and not e.d.get('inlined')]
-            users = [e for e in tr if _is_user_call(e)]
+            users = [e for e in tr if _is_user_call(e) and not e.d.get('inlined')]
             if len(keyev) != 1 or not _passes_all_args(keyev[0]) or len(gets) != 1:
                 res['lookup'] = [False, fmt_trace(tr)]
                 continue
@@ -336,14 +336,19 @@ def m3(ctx):
                 u = users[0]
                 uval = V('ucall', u.seq) if u.kind == 'UCALL' else V('ret', u.seq, tuple(sorted(t.qual for t in u.d['targets'])))
                 if kind == 'stampede':
-                    okr = rv.k in ('item', 'field') and rv.a[0] == uval and rv.a[1] in (0, C(0))
+                    # the timing helper returns (result, seconds); when it is inlined the pair is seen directly
+                    okr = rv.k in ('item', 'field') and rv.a[0] == uval and rv.a[1] in (0, C(0)) or \
+                        (u.kind == 'UCALL' and rv == uval)
                 else:
                     okr = rv == uval
                 if not okr:
                     res['returns'] = [False, fmt_trace(tr)]
                 for s in sets:
                     a = s.d['args']
-                    if not (len(a) >= 2 and a[0] == keyv and a[1] == uval):
+                    same_val = len(a) >= 2 and (a[1] == uval or (kind == 'stampede' and u.kind == 'UCALL'
+                                                               and a[1].k == 'tuple' and len(a[1].a[0]) == 2
+                                                               and a[1].a[0][0] == uval))
+                    if not (len(a) >= 2 and a[0] == keyv and same_val):
                         res['same-key'] = [False, fmt_trace(tr)]
                 if kind in ('plain', 'django'):
                     # the store happens exactly when expiry is None / default marker / > 0
